@@ -65,7 +65,8 @@ class SymExec:
     structurally comparable.
     """
 
-    def __init__(self, prog=None, cls=None, leaf=None, call=None, max_inline=4, fresh_calls=()):
+    def __init__(self, prog=None, cls=None, leaf=None, call=None, max_inline=4, fresh_calls=(), boundary=False):
+        self.boundary = boundary    # keep comparisons that are decided only by the positivity of a state/parameter value (see x_Compare)
         self.prog = prog
         self.cls = cls
         self.leaf = leaf
@@ -186,7 +187,20 @@ class SymExec:
                 left = r
                 continue
             try:
-                terms.append(ops[type(o)](left, r))
+                rel = ops[type(o)](left, r)
+                if self.boundary and rel in (sp.true, sp.false):
+                    # values are non-negative, the symbols standing for them are positive: a test that comes out differently when one
+                    # of them is 0 is kept unevaluated, so that the branch taken only on the boundary is not lost
+                    for a in sorted((left.atoms(sp.Function) | r.atoms(sp.Function)), key=str):
+                        if getattr(a, 'is_positive', None):
+                            try:
+                                at0 = ops[type(o)](left.xreplace({a: sp.Integer(0)}), r.xreplace({a: sp.Integer(0)}))
+                            except Exception:
+                                continue
+                            if at0 in (sp.true, sp.false) and at0 != rel:
+                                rel = ops[type(o)](left, r, evaluate=False)
+                                break
+                terms.append(rel)
             except TypeError:
                 terms.append(F('cmp_' + type(o).__name__)(left, r))
             left = r
